@@ -117,13 +117,21 @@ func c14Run(proto int, explore bool, duplex ...bool) {
 	if h.recv == 3 {
 		check(h.sawEOF && h.gotMsgs == sends, "the handler sees every message and then end-of-request once the client closes its side")
 	}
-	// once Receive has reported an error it keeps reporting one
-	_, again := stream.Receive()
-	check(again != nil, "once Receive has reported an error it keeps reporting one")
-	// further Sends fail instead of blocking
+	// once Receive has reported an error it keeps reporting one; further
+	// Sends fail instead of blocking - in either order (a second Receive must
+	// not be what makes the late Send fail)
+	lateSendFirst := !explore && nondetBool("lateSendBeforeSecondReceive") // (deterministic-schedule harness only: keeps the explored ones affordable)
+	if !lateSendFirst {
+		_, again := stream.Receive()
+		check(again != nil, "once Receive has reported an error it keeps reporting one")
+	}
 	m := []byte{9}
 	lateErr := stream.Send(&m)
 	check(lateErr != nil && errors.Is(lateErr, io.EOF), "a Send after the call finished fails with an error wrapping io.EOF instead of blocking")
+	if lateSendFirst {
+		_, again := stream.Receive()
+		check(again != nil, "once Receive has reported an error it keeps reporting one")
+	}
 	if receiveFirst {
 		check(stream.CloseRequest() == nil, "closing the request side succeeds")
 	}
